@@ -141,7 +141,7 @@ def run(tier, seed, t0):
                 tens.append(None)
         tf = os.path.join(work, "trace.ndjson")
         core.write_ndjson(tf, rows)
-        val = core.validate("Trace_Pyzx", "J17", tf, work, constants=VC(), timeout=3000)
+        val = core.validate_parallel("Trace_Pyzx", "J17", tf, work, constants=VC(), timeout=3000)
         # cross-oracle: the spec's GraphSem against pyzx.tensorfy (validates the specification)
         n_cross = 0
         for t, row, ten in zip(rows, val["rows"], tens):
@@ -177,7 +177,7 @@ def run(tier, seed, t0):
                     break
         if can is None:
             raise core.Machinery("canary accepted")
-        drift = core.validate("Trace_Pyzx", "JDrift", tf, work, constants=VC(), timeout=3000)
+        drift = core.validate_parallel("Trace_Pyzx", "JDrift", tf, work, constants=VC(), timeout=3000)
         cov = {"states": model["distinct"] + gen["distinct"], "transitions": model["generated"] + gen["generated"],
                "traces_validated_against_impl": clauses["ok"],
                "samples": [{"kind": t["kind"], "zx": qadapt.describe_zx(t["zx"]), "vertices": len(t["g"]["vs"]),
